@@ -3,6 +3,7 @@ package checks
 import (
 	"encoding/json"
 	"fmt"
+	"strings"
 	"os"
 	"path/filepath"
 
@@ -20,6 +21,7 @@ type runtimeCheck struct {
 	Profile           func(avoid map[string]string) *schema.Profile
 	Inner             []string
 	Variant           string
+	ServerOnlyEvery   int
 	Param             string
 	Race              bool
 	Batches           [2]int // quick, thorough
@@ -87,6 +89,12 @@ func (rc *runtimeCheck) runBatches(c *core.Ctx) error {
 		}
 		for _, s := range schemas {
 			countAvoided(c, s, avoid)
+			for _, tg := range s.Tags {
+				// what the generator produced, by schema (the distribution the check actually ran on)
+				if i := strings.Index(tg, ":"); i < 0 || !strings.ContainsAny(tg[i:], "0123456789") {
+					c.Ev.Class("schema:"+tg, 1)
+				}
+			}
 		}
 		extra := rc.Extra
 		if rc.Prepare != nil {
@@ -96,7 +104,7 @@ func (rc *runtimeCheck) runBatches(c *core.Ctx) error {
 			}
 			extra = ex
 		}
-		spec := &batchSpec{Name: fmt.Sprintf("%s-%d", rc.ID, b), Variant: variant, Schemas: schemas, Param: rc.Param, Race: rc.Race,
+		spec := &batchSpec{Name: fmt.Sprintf("%s-%d", rc.ID, b), Variant: variant, Schemas: schemas, Param: rc.Param, Race: rc.Race, ServerOnlyEvery: rc.ServerOnlyEvery,
 			Checks: rc.Inner, Cases: cases, Extra: extra}
 		out, err := runBatch(c, spec)
 		if err != nil {
@@ -149,7 +157,7 @@ var commonAssumptions = []string{
 }
 
 func init() {
-	registerRuntime(&runtimeCheck{ID: "C05", Profile: schema.ProfileCodec, Inner: []string{"c05"}, Prefix: "j",
+	registerRuntime(&runtimeCheck{ID: "C05", Profile: schema.ProfileCodec, Inner: []string{"c05"}, Prefix: "j", ServerOnlyEvery: 2,
 		Batches: [2]int{1, 10}, PerBatch: [2]int{96, 64}, Cases: [2]int{120, 400},
 		Rule:        "cases = (schema from the codec profile with every RPC on an explicit route) x RPC x (request value, response value). The generated Go server is driven with raw HTTP: the request body is the reference model's encoding of the request value, the handler returns the response value. Oracle: handler-visible request == value (accepted form) and the response body tree == model encoding (sent form), compared field by field incl. un-annotated fields. Non-trivial = request or response type carries an annotation at any depth, or the value is presence-sensitive; distinct by (RPC, request value, response value). Contexts are counted in classes request:ctx:* / response:ctx:*.",
 		Assumptions: commonAssumptions})
@@ -168,7 +176,7 @@ func init() {
 		Batches: [2]int{1, 10}, PerBatch: [2]int{48, 64}, Cases: [2]int{250, 800},
 		Rule:        "cases = (schema with buf.validate rules on top-level, nested, repeated and map-value fields, required headers, custom *Error messages) x RPC x error source {header violation, rule violation, plain error, sebuf Error, wrapped sebuf Error, handler-returned ValidationError, custom *Error message (+wrapped)} x content type {JSON, binary} x error hook {none, returns nil, returns message, sets status, sets header, writes body, combinations}; the call goes through the generated Go client. Oracle = documented error contract E: status, hook header, body decoded in the request's content type (message equality / violation field names = dotted proto paths or header names computed by the reference validator), and client error type (errors.As ValidationError / Error, or an error carrying status or body). Non-trivial = a hook is installed, binary content type, or a nested violation path; distinct by (case, wire body).",
 		Assumptions: append([]string{"rule violations come from the stand-in validator (standard-rule subset); subscripts in field paths are ignored when comparing"}, commonAssumptions...)})
-	registerRuntime(&runtimeCheck{ID: "C11", Profile: schema.ProfileCodec, Inner: []string{"c11", "c11client", "c11ts"}, Prefix: "f", Prepare: prepareTS,
+	registerRuntime(&runtimeCheck{ID: "C11", Profile: schema.ProfileCodec, Inner: []string{"c11", "c11client", "c11ts"}, Prefix: "f", Prepare: prepareTS, ServerOnlyEvery: 4,
 		Batches: [2]int{1, 12}, PerBatch: [2]int{128, 64}, Cases: [2]int{200, 1000},
 		Rule:        "server cases = (schema from the codec profile: every message shape with a custom decoder) x body-carrying RPC x structure-aware mutation of the model-encoded valid body {a field replaced by a value invalid in every accepted form (wrong JSON type, non-numeric / fractional / overflowing numbers, text invalid in the declared bytes/timestamp encoding, at depth <= 3), truncation at any offset, trailing garbage, null/array/scalar at top level, nesting to 200000, invalid UTF-8, duplicate keys, 1e999999, random bytes, random / truncated protobuf wire data} x content types incl. parameters, unknown and empty. Oracle: no panic, status in {200,400}, a 400 body is a ValidationError with >= 1 violation and no dispatch, bodies invalid in every accepted form are never dispatched, dispatched binary bodies equal the reference decoding, latency within 100x the unit's median (re-checked). Client cases = arbitrary (status, content type, body kind) served by a stub transport to the generated Go client: returns value or error, never panics, never hangs (20 s), never reports success for status >= 400 or a transport failure. Non-trivial = wrong-type mutation or a message with a custom decoder (server); any non-valid body (client); distinct by case text.",
 		Assumptions: append([]string{"the deciding search is rapid's structure-aware mutation in both tiers; native coverage-guided fuzzing of generated packages is not registered (per-run packages have no stable corpus)", "duplicate keys, huge numbers and invalid UTF-8 are only judged for clean rejection or faithful dispatch, not for a fixed verdict"}, commonAssumptions...)})
@@ -192,8 +200,8 @@ func init() {
 		Batches: [2]int{1, 8}, PerBatch: [2]int{32, 48}, Cases: [2]int{40, 200},
 		Rule:        "cases = (schema from the interop profile: routes combining path variables with query parameters, several services per file, service- and method-level headers, codec annotations) x RPC x pair {TS client -> Go server, Go client -> TS server, TS client -> TS server} x (request, response) values restricted to the JSON-representable contract form x header options (raw headers, typed helper properties on client and call options). The emitted .ts modules are imported in Node 22 (load failure = violation); the TS server runs behind node:http with a template-matching dispatcher over its RouteDescriptors; the Go server listens on loopback. Oracle: the handler of the same RPC saw the caller's request and the caller got the handler's response, compared through the message types on the contract JSON form; required headers are validated by the Go server, so a helper that sets another header name yields 400. Non-trivial = route with path variable and query parameter on a bodiless verb, or a typed header helper; distinct by (pair, request, response).",
 		Assumptions: append([]string{"Node's type stripping executes the emitted TypeScript; type errors are invisible (no tsc offline)", "values are limited to |int| <= 2^53 and finite floats: what JavaScript numbers can carry"}, commonAssumptions...)})
-	registerRuntime(&runtimeCheck{ID: "C07", Profile: schema.ProfileContract, Inner: []string{"c07"}, Prefix: "y", Prepare: prepareTS,
-		Batches: [2]int{1, 8}, PerBatch: [2]int{40, 48}, Cases: [2]int{80, 300},
+	registerRuntime(&runtimeCheck{ID: "C07", Profile: schema.ProfileContract, Inner: []string{"c07"}, Prefix: "y", Prepare: prepareTS, ServerOnlyEvery: 2,
+		Batches: [2]int{1, 8}, PerBatch: [2]int{80, 64}, Cases: [2]int{80, 300},
 		Rule:        "cases = (schema from the contract profile) x RPC x value x source {JSON the generated Go server returns, contract-form request body the Go server accepts, object the generated TS server passes to its handler (request sent by the generated Go client)}. The declarations of *_client.ts and *_server.ts are read by a parser of exactly the emitted subset (interfaces, string-literal unions, object-literal unions, intersections, Record<>, arrays, ?, | null; method signatures of client classes) and the value must inhabit the declared type structurally, with every property on the wire declared at that position; the two plugins' declarations of the same type must be equal. Non-trivial = every judged value (distinct by wire text).",
 		Assumptions: append([]string{"no TypeScript compiler offline: inhabitation is decided by a structural checker over the emitted declaration subset; a declaration it cannot parse is an infrastructure error (exit 2), never a violation"}, commonAssumptions...)})
 	registerRuntime(&runtimeCheck{ID: "C03", Profile: schema.ProfileRoutes, Inner: []string{"c03", "c02ts"}, Prefix: "n", Prepare: prepareTS,
